@@ -38,12 +38,17 @@ is structural; `Fail.fuel` is "not decided with this fuel", never a result.
 
 namespace Go
 
+/-- the numeric Go types other than `float64` and `int` that `fudge` knows -/
+inductive NumTy where
+  | f32 | i64 | i32
+  deriving Repr, Inhabited, DecidableEq
+
 inductive GV where
   | nil
   | bool (b : Bool)
   | f64 (q : Rat)
   | int (i : Int)
-  | numT (ty : String) (i : Int)
+  | numT (ty : NumTy) (i : Int)
   | str (s : String)
   | slice (xs : List GV)
   | ref (a : Nat)
@@ -65,7 +70,7 @@ def keyEq : GV → GV → Bool
   | .bool a, .bool b => a == b
   | .f64 a, .f64 b => a == b
   | .int a, .int b => a == b
-  | .numT s a, .numT t b => s == t && a == b
+  | .numT s a, .numT t b => decide (s = t) && a == b
   | .str a, .str b => a == b
   | .err a, .err b => a == b
   | _, _ => false
@@ -165,34 +170,53 @@ def heapGet (h : Heap) (a : Nat) : Option MapObj := h[a]?
 
 def heapSet (h : Heap) (a : Nat) (o : MapObj) : Heap := h.set a o
 
-def typeOf (h : Heap) : GV → String
-  | .nil => "nil"
-  | .bool _ => "bool"
-  | .f64 _ => "float64"
-  | .int _ => "int"
-  | .numT ty _ => ty
-  | .str _ => "string"
-  | .slice _ => "[]interface{}"
-  | .ref a => match heapGet h a with | some o => o.ty | none => "?"
-  | .err _ => "error"
-  | .other t => t
+/-- dynamic types: the predeclared ones apart, a map or struct type by name, so that no map object
+    can pass for a string whatever its type is called -/
+inductive GT where
+  | nil | bool | f64 | int | num (t : NumTy) | str | slice | err
+  | named (n : String)
+  | other (tag : String)
+  | dangling
+  deriving Repr, Inhabited, DecidableEq
+
+def typeOf (h : Heap) : GV → GT
+  | .nil => .nil
+  | .bool _ => .bool
+  | .f64 _ => .f64
+  | .int _ => .int
+  | .numT ty _ => .num ty
+  | .str _ => .str
+  | .slice _ => .slice
+  | .ref a => match heapGet h a with | some o => .named o.ty | none => .dangling
+  | .err _ => .err
+  | .other t => .other t
+
+/-- a type as written in a `case` of a type switch or in a type assertion -/
+def parseTy (s : String) : GT :=
+  if s = "nil" then .nil
+  else if s = "bool" then .bool
+  else if s = "float64" then .f64
+  else if s = "int" then .int
+  else if s = "float32" then .num .f32
+  else if s = "int64" then .num .i64
+  else if s = "int32" then .num .i32
+  else if s = "string" then .str
+  else if s = "[]interface{}" then .slice
+  else if s = "error" then .err
+  else .named s
 
 /-- the UTF-8 length of a string (`len(s)`) on `toList`, so that it reduces in the kernel -/
 def byteLen (cs : List Char) : Nat := (cs.map (fun c => c.utf8Size)).sum
 
 /-- `s[n:]`: only at a character boundary -/
-def dropBytes : Nat → List Char → Option (List Char)
-  | 0, cs => some cs
-  | _+1, [] => none
-  | n+1, c :: cs => if c.utf8Size ≤ n+1 then dropBytes (n+1 - c.utf8Size) cs else none
-termination_by n cs => cs.length
+def dropBytes : List Char → Nat → Option (List Char)
+  | [], n => if n = 0 then some [] else none
+  | c :: cs, n => if n = 0 then some (c :: cs) else if c.utf8Size ≤ n then dropBytes cs (n - c.utf8Size) else none
 
 /-- `s[:n]`: only at a character boundary -/
-def takeBytes : Nat → List Char → Option (List Char)
-  | 0, _ => some []
-  | _+1, [] => none
-  | n+1, c :: cs => if c.utf8Size ≤ n+1 then (takeBytes (n+1 - c.utf8Size) cs).map (c :: ·) else none
-termination_by n cs => cs.length
+def takeBytes : List Char → Nat → Option (List Char)
+  | [], n => if n = 0 then some [] else none
+  | c :: cs, n => if n = 0 then some [] else if c.utf8Size ≤ n then (takeBytes cs (n - c.utf8Size)).map (c :: ·) else none
 
 def truthy : GV → Option Bool
   | .bool b => some b
@@ -314,6 +338,13 @@ def bindParams : List String → Bool → List GV → Option Env
   | p :: ps, vr, v :: vs => (bindParams ps vr vs).map ((p, v) :: ·)
   | _, _, _ => none
 
+/-- the first byte of the UTF-8 encoding of a character -/
+def leadByte (c : Char) : Nat :=
+  if c.toNat < 128 then c.toNat
+  else if c.toNat < 2048 then 192 + c.toNat / 64
+  else if c.toNat < 65536 then 224 + c.toNat / 4096
+  else 240 + c.toNat / 262144
+
 /-- `a[i]` with the comma-ok flag -/
 def indexV (h : Heap) (a i : GV) : R (GV × Bool) :=
   match a with
@@ -334,9 +365,9 @@ def indexV (h : Heap) (a i : GV) : R (GV × Bool) :=
   | .str s =>
     match i with
     | .int j =>
-      -- a byte of a string: only the first byte of an ASCII first character is modelled
+      -- a byte of a string: only the first one is modelled
       if j = 0 then match s.toList with
-        | c :: _ => if c.toNat < 128 then .ok (.int c.toNat, true) else .error (.stuck "byte of a non-ASCII character")
+        | c :: _ => .ok (.int (leadByte c), true)
         | [] => .error (.panic "index out of range")
       else .error (.stuck "string index other than 0")
     | _ => .error (.stuck "string index")
@@ -350,14 +381,14 @@ def sliceV (a : GV) (lo hi : Option GV) : R GV :=
     match l with
     | none => .error (.stuck "slice bound")
     | some l =>
-      match dropBytes l cs with
+      match dropBytes cs l with
       | none => .error (.stuck "string slice inside a character or out of range")
       | some rest =>
         match hi with
         | none => .ok (.str (String.ofList rest))
         | some (.int j) =>
           if l ≤ j.toNat ∧ 0 ≤ j then
-            match takeBytes (j.toNat - l) rest with
+            match takeBytes rest (j.toNat - l) with
             | some t => .ok (.str (String.ofList t))
             | none => .error (.stuck "string slice inside a character or out of range")
           else .error (.panic "slice bounds out of range")
@@ -473,7 +504,7 @@ def evalE : Nat → Prog → Env → Env → Heap → GE → R (List GV × Heap)
       match eval1 n p g env h a with
       | .error er => .error er
       | .ok (va, h1) =>
-        if typeOf h1 va = ty then .ok ([va], h1) else .error (.panic ("interface conversion: not " ++ ty))
+        if typeOf h1 va = parseTy ty then .ok ([va], h1) else .error (.panic ("interface conversion: not " ++ ty))
     | .comp _ elts =>
       match evalArgs n p g env h elts with
       | .error er => .error er
@@ -611,7 +642,7 @@ def execS : Nat → Prog → Env → Env → Heap → GS → R (Flow × Env × H
         match eval1 n p g env h a with
         | .error er => .error er
         | .ok (va, h1) =>
-          let is := typeOf h1 va = ty
+          let is := typeOf h1 va = parseTy ty
           match assignAll n p g env h1 define [x, ok] [if is then va else zeroOf ty, .bool is] with
           | .error er => .error er
           | .ok (env1, h2) => .ok (.next, env1, h2)
@@ -685,7 +716,7 @@ def execS : Nat → Prog → Env → Env → Heap → GS → R (Flow × Env × H
       | .error er => .error er
       | .ok (v, h1) =>
         let ty := typeOf h1 v
-        let body := match cases.find? (fun c => c.1.contains ty) with
+        let body := match cases.find? (fun c => c.1.any (fun t => parseTy t = ty)) with
           | some c => c.2
           | none => dflt.getD []
         let env1 := if bind = "" then env else (bind, v) :: env
